@@ -46,7 +46,15 @@ func (d *cmpDomain) fill() {
 	core.ParFor(n, func(i int) {
 		row := make([]int8, n)
 		for j := 0; j < n; j++ {
-			row[j] = int8(core.Sign(d.vers[i].Compare(d.vers[j])))
+			other := d.vers[j]
+			if j == i {
+				// reflexivity is judged on two separately parsed copies: comparing an object with itself
+				// may take an identity shortcut
+				if again, err := d.sys.Parse(d.strs[i]); err == nil {
+					other = again
+				}
+			}
+			row[j] = int8(core.Sign(d.vers[i].Compare(other)))
 		}
 		d.m[i] = row
 	})
@@ -444,6 +452,15 @@ func c01Replay(w string) (bool, string) {
 		x := core.Sign(a.Compare(b))
 		y := core.Sign(sys.Compare(p[2], p[3]))
 		return x == y, fmt.Sprintf("Version.Compare=%d System.Compare=%d", x, y)
+	case "xsort":
+		fresh, err1 := c01HistoryChild("-", p[1])
+		after, err2 := c01HistoryChild(p[2], p[1])
+		if err1 != nil || err2 != nil {
+			return true, "child process failed"
+		}
+		_, fs, _ := strings.Cut(fresh, "|")
+		_, as, _ := strings.Cut(after, "|")
+		return fs == as, fmt.Sprintf("fresh [%s], after %s [%s]", fs, p[2], as)
 	case "xhist":
 		fresh, err1 := c01HistoryChild("-", p[1], p[3], p[4])
 		after, err2 := c01HistoryChild(p[2], p[1], p[3], p[4])
@@ -567,7 +584,11 @@ func C01HistoryWorker(args []string) {
 				out.WriteByte("<=>"[core.Sign(b.Compare(bs[i], bs[j]))+1])
 			}
 		}
-		fmt.Println(out.String())
+		if len(only) == 0 {
+			fmt.Println(out.String() + "|" + c01HistorySort(b))
+		} else {
+			fmt.Println(out.String())
+		}
 		return
 	}
 	if args[0] != "-" {
@@ -587,7 +608,34 @@ func C01HistoryWorker(args []string) {
 		c01HistoryMatrix(a, first)
 	}
 	b, _ := dom.SysByName(args[1])
-	fmt.Println(c01HistoryMatrix(b, only))
+	out := c01HistoryMatrix(b, only)
+	if len(only) == 0 {
+		// the sorting entry point on a list of spellings several systems accept (and order differently)
+		if args[0] != "-" {
+			a, _ := dom.SysByName(args[0])
+			c01HistorySort(a)
+		}
+		out += "|" + c01HistorySort(b)
+	}
+	fmt.Println(out)
+}
+
+// c01HistorySort sorts the shared spelling list with resolve.SortVersions in the system (if the resolvers know it).
+func c01HistorySort(sys semver.System) string {
+	rsys, ok := resolveSystem(sys)
+	if !ok {
+		return ""
+	}
+	var vs []resolve.Version
+	for _, s := range []string{"2.0.dev1", "2.0a1", "2.0", "2.0.post1", "1.0", "1.0.0", "1.0.post1", "1.0rc1", "1.0-rc1", "1.0-1", "1.0.1", "2.0.0-rc.1", "2.0.0"} {
+		vs = append(vs, resolve.Version{VersionKey: resolve.VersionKey{PackageKey: resolve.PackageKey{System: rsys, Name: "p"}, VersionType: resolve.Concrete, Version: s}})
+	}
+	resolve.SortVersions(vs)
+	var out []string
+	for _, v := range vs {
+		out = append(out, v.Version)
+	}
+	return strings.Join(out, ",")
 }
 
 func c01HistoryChild(a, b string, pair ...string) (string, error) {
@@ -633,7 +681,14 @@ func c01History(run *core.Run) (histories, compares int64) {
 		}
 		strs := c01HistoryStrings(j.b)
 		n := len(strs)
-		for k := 0; k < len(m) && k < len(base[j.b]); k++ {
+		if mm, bm, _ := strings.Cut(m, "|"); true {
+			bb, bs, _ := strings.Cut(base[j.b], "|")
+			if mm == bb && bm != bs {
+				run.Fail(core.Join("xsort", j.b.String(), first), fmt.Sprintf("resolve.SortVersions in %v orders the shared spellings as [%s] in a fresh process and as [%s] after the same list was sorted in %v", j.b, bs, bm, first))
+				return
+			}
+		}
+		for k := 0; k < len(m) && k < len(base[j.b]) && k < n*n; k++ {
 			if m[k] != base[j.b][k] {
 				x, y := strs[k/n], strs[k%n]
 				run.Fail(core.Join("xhist", j.b.String(), first, x, y), fmt.Sprintf("%v.Compare(%s, %s) is %c in a fresh process and %c after the same identifiers were compared in %v", j.b, x, y, base[j.b][k], m[k], first))
